@@ -798,6 +798,15 @@ func runFacts(repo, outdir string) error {
 		}
 		lv.raw(fmt.Sprintf("/-- layout of verifier.%s -/\ndef %s : List (Nat × Nat × String × String) :=\n  %s\n\n", spec.fn, spec.name, leanList(items)))
 	}
+	{ // does LogStore.DeleteRange reset the running checksum state?
+		dr, err := verP.fn("LogStore", "DeleteRange")
+		if err != nil {
+			return err
+		}
+		src := verP.src(dr.Body)
+		resets := strings.Contains(src, "&s.checksum, 0") && strings.Contains(src, "&s.sumStartIdx, 0")
+		lv.raw(fmt.Sprintf("/-- `LogStore.DeleteRange` resets the running checksum and its start index -/\ndef verifierDeleteResets : Bool := %v\n\n", resets))
+	}
 	if err := lv.finish(outdir); err != nil {
 		return err
 	}
